@@ -4979,6 +4979,9 @@ class FST:
         ):
             return False
 
+        if ast_cls is Tuple and any(e.__class__ is Slice for e in self.a.elts):  # Subscript.slice Tuple with Slices, `a[b:c, d]` can not be `a[(b:c, d)]`
+            return False
+
         if parent := self.parent:
             if ast_cls is Constant and parent.a.__class__ in ASTS_LEAF_FTSTR:
                 return False
